@@ -37,20 +37,20 @@ def _words_of(msg):
     if isinstance(msg, (bytes, bytearray)):
         b = bytes(msg)
         if len(b) % 2:
-            return ["odd-bytes"] + list(b)
+            return [99999] + list(b)
         return [b[i] * 256 + b[i + 1] for i in range(0, len(b), 2)]
     if isinstance(msg, str):
         return _words_of(msg.encode())
     out = []
     for x in msg:
-        out.append(int(x) if isinstance(x, (int, bool)) else str(x))
+        out.append(int(x) if isinstance(x, (int, bool)) else 99998)
     return out
 
 
 def _bytes_words(data):
     b = bytes(data) if not isinstance(data, str) else data.encode("latin1")
     if len(b) % 2:
-        return ["odd-bytes"] + list(b)
+        return [99999] + list(b)
     return [b[i] * 256 + b[i + 1] for i in range(0, len(b), 2)]
 
 
